@@ -25,7 +25,7 @@ RULE = ("history = schema over int / u64 (incl. > i64::MAX) / float (incl. integ
 
 def make_history(rng):
     fields = [Field("k", "int"), Field("i", "int"), Field("u", "u64"), Field("f", "float"), Field("s", "string"), Field("b", "bool"),
-              Field("e", "enum", variants=["red", "green", "blue", "Red"]), Field("t", "datetime"), Field("oi", "int", optional=True)]
+              Field("e", "enum", variants=["red", "green", "blue", "Red"]), Field("t", "datetime"), Field("oi", "int", optional=True), Field("d", "date")]
     schema = Schema("ev", fields)
     n = rng.randint(40, 120)
     ctxs = [f"c{j}" for j in range(rng.randint(2, 6))]
@@ -36,6 +36,8 @@ def make_history(rng):
     t0 = 1700000000 - 1700000000 % 86400
     tvals = [t0, t0 + 1800, t0 + 3599, t0 + 3600, t0 + 3601, t0 + 7200, t0 + 37800, t0 + 43200, t0 + 82200, t0 + 86399, t0 + 86400,
              t0 + 86400 + 600, t0 + 3 * 86400, t0 - 1]
+    # a date field accepts epochs and RFC 3339 strings too and keeps the second: midnights and times of day side by side
+    dvals = [t0 - 86400, t0, t0 + 86400, t0 + 2 * 86400, t0 + 50000, t0 + 86400 + 37000, t0 + 3 * 86400 + 1, t0 + 5 * 86400 - 1]
     # skew so that zones are not all alike: values drift with k
     events = []
     for j in range(n):
@@ -44,7 +46,7 @@ def make_history(rng):
             lo = int(drift * (len(vals) - 1))
             return vals[min(len(vals) - 1, max(0, lo + rng.choice([-2, -1, 0, 0, 1, 2])))] if rng.random() < 0.7 else rng.choice(vals)
         p = {"k": j, "i": pick(sorted(ivals)), "u": pick(sorted(uvals)), "f": pick(sorted(fvals)), "s": pick(sorted(svals)),
-             "b": rng.random() < 0.5, "e": pick(fields[6].variants), "t": pick(sorted(tvals))}
+             "b": rng.random() < 0.5, "e": pick(fields[6].variants), "t": pick(sorted(tvals)), "d": pick(sorted(dvals))}
         r = rng.random()
         if r < 0.2:
             p["oi"] = None
@@ -52,7 +54,7 @@ def make_history(rng):
             p["oi"] = rng.choice([1, 2, 3])
         events.append({"k": j, "ctx": rng.choice(ctxs), "payload": p})
     cfg = dict(shard_count=rng.choice([1, 1, 2]), event_per_zone=rng.choice([1, 2, 3, 4]), fill_factor=200, segments_per_merge=2)
-    return schema, events, cfg, ctxs, dict(i=ivals, u=uvals, f=fvals, s=svals, t=tvals)
+    return schema, events, cfg, ctxs, dict(i=ivals, u=uvals, f=fvals, s=svals, t=tvals, d=dvals)
 
 
 def gen_probes(rng, schema, pools, ctxs, nmax):
@@ -101,6 +103,10 @@ def gen_probes(rng, schema, pools, ctxs, nmax):
         for d, cls in ((0, "present"), (1, "neighbour"), (-1, "neighbour")):
             for op in ("=", "<", "<=", ">", ">="):
                 add("t", op, v + d, "datetime", cls, temporal=True)
+    for v in pools["d"]:
+        for d, cls in ((0, "present"), (1, "neighbour"), (-1, "neighbour")):
+            for op in ("=", "<", "<=", ">", ">="):
+                add("d", op, v + d, "date", cls, temporal=True)
     for c in ctxs + ["nobody"]:
         add("context_id", "=", c, "context", "present" if c != "nobody" else "absent")
     rng.shuffle(probes)
